@@ -803,6 +803,10 @@ func fioGenProg(r *Rand, thorough bool, broken int) *fioResult {
 			return add(op)
 		case k < 13:
 			ref, _ := takeRef()
+			if r.P(1, 6) {
+				// a stream object under a reference with non-zero generation
+				ref = pdf.NewReference(ref.Number(), uint16(Pick(r, []int{1, 2, 65535})))
+			}
 			op := fioOp{kind: 'S', ref: ref, dict: fioGenStreamDict(r), data: fioGenBody(r), userLen: -1, same: -1}
 			if len(sIdx) > 0 && r.P(1, 3) {
 				// the same *Stream value is handed to Put again
@@ -823,6 +827,9 @@ func fioGenProg(r *Rand, thorough bool, broken int) *fioResult {
 			return add(op)
 		case k < 17:
 			ref, _ := takeRef()
+			if r.P(1, 6) {
+				ref = pdf.NewReference(ref.Number(), uint16(Pick(r, []int{1, 2, 65535})))
+			}
 			op := fioOp{kind: 'O', ref: ref, dict: fioGenStreamDict(r), filters: fioGenFilters(r, p.version), userLen: -1, same: -1}
 			if len(oIdx) > 0 && r.P(1, 3) {
 				// the same dictionary value is handed to OpenStream again
@@ -1515,6 +1522,9 @@ func fioStatProg(c *Ctx, res *fioResult) {
 			if op.same >= 0 {
 				c.Stat("op_O_same_dict_again")
 			}
+			if op.ref.Generation() != 0 {
+				c.Stat("op_O_nonzero_generation")
+			}
 			for _, f := range op.filters {
 				c.Stat("filter_" + f)
 			}
@@ -1523,6 +1533,9 @@ func fioStatProg(c *Ctx, res *fioResult) {
 		case 'S':
 			if op.same >= 0 {
 				c.Stat("op_S_same_stream_again")
+			}
+			if op.ref.Generation() != 0 {
+				c.Stat("op_S_nonzero_generation")
 			}
 			if op.dict["Filter"] == pdf.Name("Crypt") {
 				c.Stat("op_S_crypt_filter_in_dict")
